@@ -39,7 +39,8 @@ VEL_TOL = 1e-7   # km/s (Earth-fixed velocity of the reported state; a 1 s slip 
 
 def _sites():
     lat = st.one_of(st.floats(-90, 90), st.sampled_from([0.0, 90.0, -90.0, 89.999, 45.0, -33.0]))
-    lon = st.one_of(st.floats(-180, 180), st.sampled_from([0.0, 180.0, -180.0, 179.9999, 90.0]))
+    # longitudes in either convention: -180..180, or east longitude 0..360 (Maui at 203.74 E; no validator restricts the range)
+    lon = st.one_of(st.floats(-180, 180), st.floats(180, 360), st.sampled_from([0.0, 180.0, -180.0, 179.9999, 90.0, 203.74, 270.0, 359.9999, 360.0]))
     alt = st.one_of(st.floats(-0.4, 9.0), st.sampled_from([0.0, 0.095, 3.0756]))
     return st.tuples(lat, lon, alt)
 
